@@ -109,12 +109,13 @@ structure FamState where
   fam : Family
   rx : Bool
   tx : Bool
+  enh : Bool                    -- RFC 8950 extended next hop in force for this family
   deriving Repr, DecidableEq
 
 structure Codec where
   fams : List FamState          -- sorted by family
   extMsg : Bool
-  enh : Bool
+  enh : Bool                    -- what the encoder does: IPv4 unicast goes into MP_REACH / MP_UNREACH
   as4 : Bool
   deriving Repr, DecidableEq
 
@@ -128,12 +129,12 @@ def commonFams (l r : List Cap) : List Family :=
 def famStateOf (l r : List Cap) (f : Family) : FamState :=
   let la := lastMode f (addPathTuples l)
   let ra := lastMode f (addPathTuples r)
-  { fam := f, rx := bit0 la && bit1 ra, tx := bit1 la && bit0 ra }
+  { fam := f, rx := bit0 la && bit1 ra, tx := bit1 la && bit0 ra, enh := enhAdv f l && enhAdv f r }
 
 def negotiate (l r : List Cap) : Codec :=
   { fams := (commonFams l r).map (famStateOf l r)
     extMsg := hasExtMsg l && hasExtMsg r
-    enh := (commonFams l r).any fun f => enhAdv f l && enhAdv f r
+    enh := decide (IPV4 ∈ commonFams l r) && (enhAdv IPV4 l && enhAdv IPV4 r)
     as4 := hasAs4 l && hasAs4 r }
 
 def Codec.state (c : Codec) (f : Family) : Option FamState := c.fams.find? fun s => s.fam = f
@@ -287,7 +288,7 @@ structure Params where
   pl : List (Family × Nat)
   gr : Option GrCfg
   llgr : Option LlgrCfg
-  pol : Option Bool                -- per-neighbour export policy default: some true = accept
+  pol : Option (Bool × List String) -- per-neighbour export policy: (default accept?, policy names)
   deriving Repr, DecidableEq
 
 def DEFAULT_HOLD_TIME : Nat := 180
@@ -349,7 +350,7 @@ structure PeerCfg where
   caps : List Cap
   sm : List (Family × Nat)
   pl : List (Family × Nat)
-  pol : Option Bool
+  pol : Option (Bool × List String)
   deriving Repr, DecidableEq
 
 /-- `PeerParams::build` -/
@@ -408,6 +409,7 @@ structure Sess where
   ctx : Nat
   doom : Option Doom        -- a close reason is waiting in its `close_rx`
   asn : Nat                 -- what its arbiter's PeerFsm puts into the OPEN
+  expected : Nat            -- the AS its arbiter's PeerFsm insists on (0 = any)
   hold : Nat
   caps : List Cap
   deriving Repr, DecidableEq
@@ -445,9 +447,18 @@ def confedAdjust (asn : Nat) (confed : Option (Nat × List Nat)) (p : Params) : 
       if !members.contains p.expected && p.expected != own then { p with localAsn := id } else p
   | none => p
 
-/-- `Global::add_peer` (None = Err(AlreadyExists)) -/
+/-- the policies that exist in the policy table of a history (convention of the case format) -/
+def knownPolicies : List String := ["p1", "p2"]
+
+/-- `PolicyTable::build_assignment`: every named policy must exist -/
+def polOk : Option (Bool × List String) → Bool
+  | some (_, names) => names.all fun n => knownPolicies.contains n
+  | none => true
+
+/-- `Global::add_peer` (None = Err: address already there, or a named export policy does not exist) -/
 def addPeer (st : St) (p : Params) : Option St :=
   if (plookup p.addr st.peers).isSome then none
+  else if !polOk p.pol then none
   else
     let cfg := build (confedAdjust st.asn st.confed p) st.asn
     some { st with
@@ -490,7 +501,7 @@ inductive Res where
   | accept (sid : Nat) (info : SessInfo) (cfg : PeerCfg) (role : PeerRole)
   | acceptAmb (sid : Nat) (groups : List String) (consistent : Bool)
   | reject (bytesSent : Nat)
-  | discOpen (asn hold rid : Nat) (caps : List Cap)
+  | discOpen (asn hold rid : Nat) (caps : List Cap) (reply : Option Bool)
   | discNotif (code sub : Nat)
   | noSession
   | api (found : Bool)
@@ -517,7 +528,7 @@ def openSession (st : St) (addr : Ip) (p : Peer) (role : Role) : St × Res :=
       confedId := confedIdOf st.confed
       restarting := false }
   let s : Sess := { sid := sid, addr := addr, role := role, ctx := p.ctx, doom := none
-                    asn := p.cfg.localAsn, hold := p.cfg.hold, caps := p.cfg.caps }
+                    asn := p.cfg.localAsn, expected := p.cfg.expected, hold := p.cfg.hold, caps := p.cfg.caps }
   ({ st with live := st.live ++ [s], nextSid := sid + 1 }, .accept sid info p.cfg pr)
 
 def groupNames (gs : List Group) : List String := gs.map (·.name)
@@ -560,21 +571,23 @@ def forceDown (st : St) (ctx : Nat) (d : Doom) : St :=
   let live := doomSess (doomSess st.live c.slotA d) c.slotP d
   { (st.setCtx ctx {}) with live := live }
 
-/-- what the remote end sees first from a session task: the OPEN built from the neighbour's
-    configuration, or — when a close reason was already waiting — only the NOTIFICATION -/
-def firstSeen (s : Sess) (rid : Nat) : Res :=
+/-- what the remote end sees from a session task: the OPEN built from the neighbour's configuration
+    (or, when a close reason was already waiting, only the NOTIFICATION); when the remote end answers
+    with an OPEN of its own (`reply = some its AS`): `some false` = turned away with "bad peer AS"
+    because a different AS is expected, `some true` = KEEPALIVE, session Established -/
+def firstSeen (s : Sess) (rid : Nat) (reply : Option Nat) : Res :=
   match s.doom with
   | some .admin => Res.discNotif 6 2
   | some .deconf => Res.discNotif 6 3
-  | none => Res.discOpen s.asn s.hold rid s.caps
+  | none => Res.discOpen s.asn s.hold rid s.caps (reply.map fun asn => s.expected = 0 || s.expected = asn)
 
 /-- the session task from `run` to its end: what the remote end sees first, then
     `apply_disconnect` and the tail of `PeerSession::run` -/
-def disconnect (st : St) (sid : Nat) : St × Res :=
+def disconnect (st : St) (sid : Nat) (reply : Option Nat) : St × Res :=
   match st.live.find? (fun s => s.sid = sid) with
   | none => (st, .noSession)
   | some s =>
-    let first := firstSeen s st.rid
+    let first := firstSeen s st.rid reply
     -- apply_disconnect: the close slot of this role is cleared, whoever's sender is there
     let c := (st.ctx s.ctx).set s.role none
     let st := st.setCtx s.ctx c
@@ -592,6 +605,7 @@ def disconnect (st : St) (sid : Nat) : St × Res :=
 inductive Op where
   | connect (a : Ip) (r : Role)
   | disc (sid : Nat)
+  | discx (sid asn hold : Nat)
   | enable (a : Ip)
   | disable (a : Ip)
   | delete (a : Ip)
@@ -606,7 +620,8 @@ def apiOp (st : St) (a : Ip) (f : St → Peer → St) : St × Res :=
 
 def step (st : St) : Op → Out (St × Res × Bool)
   | .connect a r => acceptConnection st a r
-  | .disc sid => let (st', r) := disconnect st sid; .ok (st', r, false)
+  | .disc sid => let (st', r) := disconnect st sid none; .ok (st', r, false)
+  | .discx sid asn _ => let (st', r) := disconnect st sid (some asn); .ok (st', r, false)
   | .enable a =>
       let (st', r) := apiOp st a fun st p =>
         if p.adminDown then { st with peers := pset a { p with adminDown := false } st.peers } else st
